@@ -810,10 +810,11 @@ struct Kernel {
     return inputs(th ? 2 : blocks4_in_quick ? 1 : 0);
   }
 };
-// sort and find_if are built on for_each, whose per-call cost (~0.3 ms, and
-// far more on a busy machine) dominates the run time: quick gives find_if 2 of
-// its 5 predicates and sort 2 of its 3 variants (the third, sort(first,last),
-// only forwards std::less to the same code).
+// sort and find_if are built on for_each, whose per-call cost (~0.3 ms on an
+// idle machine, 50-100 ms when the machine is oversubscribed by other jobs)
+// dominates the run time: quick gives each of them only its first variant
+// (find_if: the unique-match-at-the-end situation is still in the quick tier
+// through the "all false except the LAST element" inputs).
 // (cheap kernels first: the driver hands unused time budget to later cases)
 static const Kernel KERNELS[] = {
     {"count_if", 2, 2, false, V_PRED, body_count_if, 2},
@@ -821,8 +822,8 @@ static const Kernel KERNELS[] = {
     {"map_reduce", 3, 3, false, V_MR, body_map_reduce, 3},
     {"partial_sum", 2, 2, false, V_PS, body_partial_sum, 2},
     {"partition", 3, 4, true, V_PART, body_partition, 4},
-    {"sort", 2, 3, false, V_SORT, body_sort, 10},
-    {"find_if", 2, 5, false, V_FIND, body_find_if, 20},
+    {"sort", 1, 3, false, V_SORT, body_sort, 10},
+    {"find_if", 1, 5, false, V_FIND, body_find_if, 20},
 };
 
 // idx = (input * nvar + variant) * MAXT + (T-1): inputs simplest first, and
